@@ -186,6 +186,30 @@ def h(cfg):
             key = lambda t: t.id > q
             refs = [ids[i] > q for i in range(n)]
             filt_desc = 'callable'
+    elif family == 'nofilter':
+        # a call without any filter selects every task of the list; on a children list remove_all() then removes all of them
+        filt_desc = 'no filter'
+        pi = [i for i in range(n) if any(parent[c] == i for c in range(n))]
+        owner = tasks[pi[choose('owner', len(pi))]] if pi and choose('on_children', 2) else None
+        lst0 = owner.children if owner is not None else w.roots
+        members = [t for t in lst0]
+        note('desc', f'n={n} parent={parent} family=nofilter list={"children of t%d" % tasks.index(owner) if owner else "roots"}')
+        note('class', zlib.crc32(f'{parent}{tasks.index(owner) if owner else -1}'.encode()))
+        sel = lst0()
+        check([id(t) for t in sel] == [id(t) for t in members], 'C18 query without filters does not return every task of the list')
+        mode = choose('bulk', 2)
+        if mode == 0:
+            sel.flag = 'x'
+            check(all(t.__dict__.get('flag') == 'x' for t in members) and
+                  all(('flag' in t.__dict__) == (t in members) for t in tasks), 'C18 bulk assignment touched the wrong tasks')
+        else:
+            removed = (owner.children if owner is not None else w.roots).remove_all()
+            check([id(t) for t in removed] == [id(t) for t in members], 'C18 remove_all does not return exactly the matching tasks',
+                  detail='no filter')
+            check(len(owner.children if owner is not None else w.roots) == 0,
+                  'C18 remove_all did not remove exactly the matching tasks with their subtrees', detail='no filter')
+            check([id(t) for t in sel] == [id(t) for t in members], 'C18 query result changed by a later removal')
+        return
     desc = f'n={n} parent={parent} family={family} filter={filt_desc} population={[p[0] for p in pops]}'
     note('desc', desc)
     note('class', zlib.crc32(desc.encode()))
@@ -273,11 +297,11 @@ def harnesses(tier):
             {'name': 'regex-model-validation', 'fn': h_regex_model, 'cfg': {}},
             {'name': 'int-n3', 'fn': h, 'cfg': {'n': 3, 'family': ['int'], 'second': True}},
             {'name': 'text-n2', 'fn': h, 'cfg': {'n': 2, 'family': ['text']}},
-            {'name': 'structure-n3', 'fn': h, 'cfg': {'n': 3, 'family': ['structure'], 'hierarchy': True}},
+            {'name': 'structure-n3', 'fn': h, 'cfg': {'n': 3, 'family': ['structure', 'nofilter'], 'hierarchy': True}},
         ]
     return [
         {'name': 'regex-model-validation', 'fn': h_regex_model, 'cfg': {}},
         {'name': 'int-n4', 'fn': h, 'cfg': {'n': 4, 'family': ['int'], 'second': True, 'hierarchy': True}},
         {'name': 'text-n3', 'fn': h, 'cfg': {'n': 3, 'family': ['text']}},
-        {'name': 'structure-n4', 'fn': h, 'cfg': {'n': 4, 'family': ['structure'], 'hierarchy': True}},
+        {'name': 'structure-n4', 'fn': h, 'cfg': {'n': 4, 'family': ['structure', 'nofilter'], 'hierarchy': True}},
     ]
